@@ -1,5 +1,6 @@
 import Hive.Base.Proto
 import Hive.Gen.C19_SafeMath
+import Hive.Model.SafeMathOps
 open Hive.Proto Hive.GoInt Hive.Gen.SafeMath
 
 /-- `parseTy` of GoInt.lean plus the defined 16-bit types of the harness. -/
@@ -32,6 +33,11 @@ def stepC19 (_ : Unit) (toks : List String) : Unit × String :=
         | "mul" => toString (T.mul x y)
         | "div" => toString (T.div x y)
         | "and" => toString (T.and x y)
+        | "or" => toString (T.or x y)
+        | "xor" => toString (T.xor x y)
+        | "andnot" => toString (T.andNot x y)
+        | "rem" => toString (T.rem x y)
+        | "not" => toString (T.not x)
         | "neg" => toString (T.neg x)
         | "shl" => toString (T.shl x y)
         | "shr" => toString (T.shr x y)
